@@ -550,7 +550,7 @@ def tensordot(a, b, axes=2, *, backend=None):
     try:
         # ensure hashable
         axes = tuple(map(int, axes[0])), tuple(map(int, axes[1]))
-    except IndexError:
+    except (IndexError, TypeError):
         axes = int(axes)
 
     (
